@@ -146,3 +146,53 @@ def with_semantics(R, P, shape_fn, verdict, what, fi, rule="SEMANTICS", scope=No
             R.unknown(rule, what, fi.key if fi is not None else "", detail)
         for f in T.findings:
             R.bad(f)
+
+
+def merge_filtered(R, T, confirmed):
+    """copy the outcome of the scratch result T into R; a finding for which ``confirmed(finding)`` gives a detail text (the meaning of
+    the function it is about was confirmed by folding) is recorded as an undecided shape instead of being reported"""
+    for o in T.obligations:
+        if o["status"] == "discharged":
+            R.ok(o["rule"], o["instance"], o["where"], nontrivial=o["nontrivial"])
+    for u in T.unproven:
+        R.unknown(u["rule"], u["instance"], u["where"], u["why"])
+    R.floors.extend(T.floors)
+    for t in T.trusted:
+        R.trust(t)
+    for k, v in getattr(T, "analysed", {}).items() if isinstance(getattr(T, "analysed", None), dict) else []:
+        R.analysed[k] = v
+    n = 0
+    for f in T.findings:
+        why = confirmed(f)
+        if why:
+            n += 1
+            R.unknown(f.rule, f.construct, "%s:%s %s" % (f.file, f.line, f.function),
+                      "shape not recognised (%s); the meaning of the fragment was confirmed by folding: %s" % (f.message[:100], str(why)[:120]))
+        else:
+            R.bad(f)
+    return n
+
+
+def group_semantics(R, prog, P):
+    """GROUP-SEMANTICS: every kind of variable group, created by folding VariablesManager.new_* on small instances through the object
+    model (sa/objfold.py, sa/props/_groups_fold.py), has the documented identifiers, index order, inverse maps, labels and pattern
+    selection.  -> confirmed(finding) for merge_filtered"""
+    from . import _groups_fold as gf
+    ci = prog.cls(gf.MOD, "VariablesManager")
+    for kind in gf.KINDS:
+        v = gf.verdict(prog, kind)
+        fi = ci.methods.get("new_" + kind)
+        if v[0] is True:
+            R.ok("GROUP-SEMANTICS", "new_%s: %s" % (kind, v[1]), fi.key if fi else "")
+        elif v[0] is False:
+            from ..report import Finding
+            R.bad(Finding(P, "GROUP-SEMANTICS", fi, "new_%s groups behave as documented" % kind, v[1]))
+        else:
+            R.unknown("GROUP-SEMANTICS", "new_%s" % kind, fi.key if fi else "", v[1])
+
+    def confirmed(f):
+        if (f.module or "") != gf.MOD or not f.function:
+            return None
+        v = gf.verdict_for(prog, f.function)
+        return v[1] if v[0] is True else None
+    return confirmed
